@@ -8,5 +8,8 @@ r = model.Repo.load()
 p = os.path.join(V, "fsv", "known_functions.json")
 d = json.load(open(p)) if os.path.exists(p) else {}
 d["functions"] = sorted(r.functions)
+# parameter names at binding time: an optional parameter added later with a constant default that no call site in the package passes is
+# evaluated at its default (sym.new_param_bindings)
+d["params"] = {q: [x.arg for x in f.node.args.posonlyargs + f.node.args.args + f.node.args.kwonlyargs] for q, f in sorted(r.functions.items())}
 json.dump(d, open(p, "w"), indent=0)
 print(len(d["functions"]), "functions")
